@@ -85,7 +85,7 @@ EXTRA = {
  "C14": " Also: capacity-limited self-aliased arguments, arguments scribbled after the call, NaN/-0 elements, the same buffers call after call with kept results, operands up to 70001 elements, FlexSlice windows and capacities around 2^12..2^17.",
  "C15": " Also: uninterrupted call histories changing one ingredient at a time with all results kept, faulty/partly consumed/panicking readers followed by healthy ones, inputs up to 4 MiB, cold-start child processes per entry point.",
  "C16": " Also: unobserved-operation windows with permuted first observer, kept All() sequences, sets of 15..65537 words, callbacks that read/edit/panic, recovered unallocatable Add; members at and above 2^32 (512 MiB word arrays).",
- "C17": " Also: strings sharing one arena with kept results, panicking/re-entrant RemoveRunes predicates, strings up to 1.5 MiB with runes across power-of-two offsets, 97 KB identifiers, cold-start child processes.",
+ "C17": " Also: strings sharing one arena with kept results, panicking/re-entrant RemoveRunes predicates, strings up to 1.5 MiB with runes across power-of-two offsets, 97 KB identifiers, cold-start child processes; strings allocated at the address of a collected string of equal byte length (forced GC).",
  "C18": " Also: weights/values/limits up to MaxInt with a saturating oracle, one Graph value grown and re-initialised with kept results, serial sessions on one caller buffer with panicking and re-entrant callbacks, 65..300 items and graphs of 65..4100 vertices, labels that print alike. Limits of 2^16..2^21 whose best selection loads the knapsack to exactly the limit.",
  "C19": " Also: limiters reused over many batches with timed Wait, two limiters with blocking handlers, Goexit and nil/hostile panic values, surplus submissions while the bound is tight. Streams of 10^5 empty functions through 1..3 slots (park/wake windows) with a representation-independent slot-unavailable verdict; the library's LogPanic at depths 1..5000 and the built-in reporter with panic values rendered at 0/200/1024/4096/65536 bytes; SetPanicHandler again between submissions.",
  "C20": " Also: AddRule windows with permuted first observer, kept results, failing/short crypto/rand readers then healthy ones, n and character sets up to 2^20/2^18, cold-start and reconfigured-default child processes.",
